@@ -279,6 +279,19 @@ pub fn run(tier: Tier) -> i32 {
             "states": st.states, "transitions": st.transitions, "cache_grid": "limit in {0,1,2,3,8} x level in {None,0,1,2,3}, each also applied twice",
             "grid_checks": model.cache_grid_checks.load(Ordering::Relaxed)}));
     }
+    // letters with several case forms / non-ASCII cased letters in node prefixes, ignore-case tree (tree half, full grid)
+    {
+        let cfg = c08::Config { set: "case-folding".into(), patterns: c08::FOLD_PATTERNS.iter().map(|s| s.to_string()).collect(), unique: false, ignore_case: true, second_ids: false, cache_ops: true, insert_only: false, prefill: 0 };
+        let model = c08::Model::new(&ctx, cfg.clone(), "C12", true);
+        let depth = tier.pick(2, 3);
+        let st = explore(&ctx, &model, depth);
+        states += st.states;
+        transitions += st.transitions;
+        evaluations += model.cache_grid_checks.load(Ordering::Relaxed);
+        outcomes += model.outcomes.len();
+        runs.push(json!({"half": "tree, case folding", "patterns": cfg.patterns.len(), "history_depth": depth, "states": st.states, "transitions": st.transitions,
+            "grid_checks": model.cache_grid_checks.load(Ordering::Relaxed)}));
+    }
     // a node with many children from the start (tree half, full cache grid at every state)
     {
         let cfg = c08::Config { set: "wide".into(), patterns: (0..11).map(|i| format!(r"/w/(?:[a-z]+)/c{i}")).collect(), unique: false, ignore_case: false, second_ids: false, cache_ops: true, insert_only: false, prefill: 11 };
